@@ -77,3 +77,11 @@ package topology
 //@   loop 5 invariant [C19.wf] [C08.wf] [C17.cap] wfT(t) && retained == currentStringBytes && (retained == 0 || retained <= maxTotalBytes)
 //@   loop 6 invariant [C19.wf] [C08.wf] [C17.cap] wfT(t)
 //@   loop 7 invariant [C19.wf] [C08.wf] [C17.cap] wfT(t)
+
+// ---- C10: the fingerprint shown in diff output is built from the call-signature map: the keys are collected in map
+// order, so nothing but their sorted sequence may reach the result.
+//@ func TopologyFingerprint
+//@   noframe
+//@   protocol-only C10
+//@   deterministic C10
+
